@@ -39,11 +39,62 @@ ManyNext == LET k == Cardinality(started) + 1 IN
      IN Start(MsgById(k), cid, f, CHOOSE x \in FormsOf(cid) : TRUE, FALSE)
 ManySpec == Init /\ [][ManyNext]_vars
 
+\* ---------------------------------------------------------------- roll-over of the 31-bit timestamp
+\* named deviation C02/timestamp-reduced-only-after-extended: the receiver reduces a sum to 31 bits only when the chunk
+\* carried an extended timestamp; a sum that passes 2^31 through a plain 24-bit delta (fmt 1/2, or the delta a fmt-3
+\* first chunk repeats) stays >= 2^31.  The unreduced 32-bit value u is written as the 32-bit signed integer u - 2^32.
+RxAddExtOnly(a, d, isext) == IF isext \/ a < 0 \/ a <= M31 - d THEN AddMod31(a, d)
+                             ELSE (a - M31 - 1) + (d - M31 - 1)
+\* timestamp classes just below 2^31 (T31 = 2^31): absolute type-0 values that need the extended field, then small and
+\* large plain deltas, the largest plain delta 0xFFFFFE, extended deltas, sums equal to 2^31 exactly and to 2^31 - 1
+\*   2147483600 = T31-48   2147483632 = T31-16   2147483647 = T31-1   2139095040 = T31-0x800000   2130706432 = T31-0x1000000
+WrapMsgs == {D(1, 8, 1, 2147483600, 1), D(2, 8, 1, 2147483632, 1), D(3, 8, 1, 16, 1), D(4, 8, 1, 48, 1),
+             D(5, 8, 1, 2147483647, 1), D(6, 8, 1, 0, 1), D(7, 8, 1, 2139095040, 1), D(8, 8, 1, 8388606, 1),
+             D(9, 8, 1, 16777232, 1), D(10, 8, 1, 2130706432, 1)}
+\* the same on messages of several chunks (continuation chunks follow the header that crossed 2^31; after an extended
+\* delta they repeat the field), two chunk streams interleaved (each has its own timestamp to roll over), 2-byte form
+WrapMultiMsgs == {D(1, 8, 1, 2147483632, 130), D(2, 8, 1, 16, 130), D(3, 8, 1, 48, 130), D(4, 9, 1, 2147483632, 1),
+                  D(5, 9, 1, 16, 257), D(6, 8, 1, 16777232, 130)}
+\* several roll-overs in a row on each of two chunk streams: a scripted sequence of timestamps; message k goes to chunk
+\* stream 3 for odd k (1 byte, every header type the rules allow at that point is taken) and to chunk stream 64 for
+\* even k (130 bytes = 2 chunks; always the most compressed header type allowed, as FFmpeg does), so both chunk streams
+\* see the timestamps below in order, with different header histories.  fmt 0 only where nothing else is allowed.
+\*    1  T31-0x800000   type 0, extended absolute timestamp
+\*    2  0x7FFFFE       + 0xFFFFFE, the largest plain delta, passes 2^31
+\*    3  0x17FFFFC      + 0xFFFFFE (type 3 repeats a large plain delta)
+\*    4  1098907628     + 0x3FFFFFF0, extended delta
+\*    5  25165788       + 0x3FFFFFF0, extended delta passes 2^31 (type 1/2, or type 3 repeating the extended delta)
+\*    6  T31-48         + 2122317812, extended delta
+\*    7  T31-16         + 32
+\*    8  16             + 32 passes 2^31 (type 1/2, or type 3 repeating the delta)
+\*    9  48             + 32
+\*   10  T31-144        + (T31-192), extended delta
+\*   11  0              + 144: the sum is 2^31 exactly
+\*   12  T31-1          + (T31-1), extended delta
+\*   13  0              + 1 passes 2^31
+\*   14  1              + 1
+ChainTs == <<2139095040, 8388606, 25165820, 1098907628, 25165788, 2147483600, 2147483632, 16, 48, 2147483504, 0,
+             2147483647, 0, 1>>
+ChainN == 2 * Len(ChainTs)
+ChainMsgs == {D(k, 8, 1, ChainTs[(k + 1) \div 2], 1) : k \in {j \in 1..ChainN : j % 2 = 1}} \cup
+             {D(k, 9, 1, ChainTs[(k + 1) \div 2], 130) : k \in {j \in 1..ChainN : j % 2 = 0}}
+ChainFmts(cid, m) == LET ok == {f \in 1..3 : Allowed(f, cid, m)} IN
+                     IF ok = {} THEN {0} ELSE IF cid = 3 THEN ok ELSE {CHOOSE f \in ok : \A g \in ok : g <= f}
+ChainNext == \/ \E cid \in AllCids : Continue(cid, CHOOSE x \in FormsOf(cid) : TRUE)
+             \/ LET k == Cardinality(started) + 1 IN
+                /\ k <= MaxMsgs /\ k <= ChainN
+                /\ LET cid == IF k % 2 = 1 THEN 3 ELSE 64 IN
+                   \E f \in ChainFmts(cid, MsgById(k)) : Start(MsgById(k), cid, f, CHOOSE x \in FormsOf(cid) : TRUE, FALSE)
+ChainSpec == Init /\ [][ChainNext]_vars
+\* Decode is a fold over the wire and its output only grows: correct at the end = correct at every prefix
+EndOk == Done => DecodeOk /\ Agree
+
 \* simulation: the unfactored product
 SimMsgs == {D(1, 8, 1, 0, 0), D(2, 8, 1, 40, 1), D(3, 9, 1, 16777214, 128), D(4, 9, 2, 16777215, 129), D(5, 8, 1, 16777216, 257),
             D(6, 18, 1, 33554430, 300), D(7, 9, 1, 2147483647, 5), D(8, 8, 1, 1000, 130), D(9, 20, 0, 2000, 64), D(10, 9, 1, 2000, 64),
             D(11, 8, 1, 16779216, 1), D(12, 9, 1, 33556430, 7),
-            S(13, 3), S(14, 4096), S(15, 127), S(16, 64), UC(17, 0), UC(18, 5000)}
+            S(13, 3), S(14, 4096), S(15, 127), S(16, 64), UC(17, 0), UC(18, 5000),
+            D(19, 8, 1, 2147483632, 1), D(20, 8, 1, 16, 1), D(21, 9, 1, 2147483600, 64), D(22, 9, 1, 48, 64), D(23, 8, 1, 2139095040, 130)}
 \* control messages among the completed ones, keyed by id, so that the replayer knows their bodies
 Bodies == [i \in {ToString(order[k].id) : k \in {j \in 1..Len(order) : order[j].ctl # "none"}} |->
              LET m == CHOOSE x \in Msgs : ToString(x.id) = i IN [ctl |-> m.ctl, scs |-> m.scs]]
